@@ -103,6 +103,8 @@ impl<'a> WorkerState<'a> {
 	fn eval(&mut self, tape: &[u32], count: bool) -> Result<CaseInfo, Failure> {
 		let r = run_case(self.prop, tape, &mut self.ctx);
 		self.absorb_ctx();
+		// a case during which the harness lost hold of a helper thread decides nothing
+		let r = if crate::probes::streamctl::take_lost_control() { Err(Failure::new("inconclusive", "inconclusive", "a decoder thread could not be brought under the harness's control in time")) } else { r };
 		match r {
 			Ok(info) => {
 				if count {
